@@ -76,7 +76,7 @@ def check(ctx):
     # the sums S1, S2 that calibrate a density must be those of the window requested now (memoised windows keyed completely)
     from ..dispatch import check_cache_keys
     check_cache_keys(ctx, rule="R3-window-sums-current", about=("window",))
-    table_purity(ctx)
+    table_purity(ctx, cells=tuple(DEG_X) + tuple(DEG_A) + tuple(CALIB), T=T)
     ctx.trust("E4 partial evaluation of __getattr__", "library model rows for np.divide/np.sqrt/np.abs")
     ctx.assume("exact arithmetic; generic branch = every guarded divisor non-zero (the degenerate branches are C13's)")
     return ("The lazy attribute table SpectrumResult.__getattr__ is partially evaluated for each name and both modes; Gxx, Gyy, Gxy, "
